@@ -15,9 +15,9 @@ func init() {
 			js = append(js, Job{Dir: "smpp", Harness: "VH_C19_relative_fn", Params: map[string]int{"whole": 1}, Timeout: 15 * time.Minute})
 			js = append(js, Job{Dir: "smpp", Harness: "VH_C19_relative_fn", Params: map[string]int{"whole": 0}, Timeout: 15 * time.Minute})
 			// the float64 contract on the real time SSA (cvc5: z3 does not finish these)
-			for which := 0; which < 4; which++ {
+			for which := 0; which < 7; which++ {
 				md := 31
-				if which >= 2 {
+				if which >= 2 && which != 6 {
 					md = 1
 				}
 				js = append(js, Job{Dir: "smpp", Harness: "VH_C19_lemma", Params: map[string]int{"which": which, "whole": 1, "maxdays": md}, Solver: "cvc5", Timeout: 20 * time.Minute, Weight: 100})
